@@ -87,6 +87,9 @@ func NativeType(column *ColumnSchema) reflect.Type {
 
 // OvsToNativeAtomic returns the native type of the basic ovs type
 func OvsToNativeAtomic(basicType string, ovsElem interface{}) (interface{}, error) {
+	if ovsElem == nil {
+		return nil, NewErrWrongType("OvsToNativeAtomic", basicType, ovsElem)
+	}
 	switch basicType {
 	case TypeReal, TypeString, TypeBoolean:
 		naType := NativeTypeFromAtomic(basicType)
@@ -304,14 +307,24 @@ func validateMutationAtomic(atype string, mutator Mutator, value interface{}) er
 		return fmt.Errorf("atomictype %s does not support mutation", atype)
 	case TypeReal:
 		switch mutator {
-		case MutateOperationAdd, MutateOperationSubtract, MutateOperationMultiply, MutateOperationDivide:
+		case MutateOperationDivide:
+			if value.(float64) == 0 {
+				return fmt.Errorf("division by zero")
+			}
+			return nil
+		case MutateOperationAdd, MutateOperationSubtract, MutateOperationMultiply:
 			return nil
 		default:
 			return fmt.Errorf("wrong mutator for real type %s", mutator)
 		}
 	case TypeInteger:
 		switch mutator {
-		case MutateOperationAdd, MutateOperationSubtract, MutateOperationMultiply, MutateOperationDivide, MutateOperationModulo:
+		case MutateOperationDivide, MutateOperationModulo:
+			if value.(int) == 0 {
+				return fmt.Errorf("division by zero")
+			}
+			return nil
+		case MutateOperationAdd, MutateOperationSubtract, MutateOperationMultiply:
 			return nil
 		default:
 			return fmt.Errorf("wrong mutator for integer type: %s", mutator)
